@@ -258,6 +258,24 @@ func c02Kinds() []c02Kind {
 		honest := p[0] == "inter" || p[0] == "leaf"
 		add("pool-lists:"+strings.Join(p, "+"), honest, true, func(rng *rand.Rand, s *world.Spec) { s.Pool = p })
 	}
+	// ---- a self-consistent chain under the look-alike PKI whose leaf carries the SGX extension marked CRITICAL: path validation
+	// refuses such a leaf before it looks at any root — an error that must not be mistaken for "chain is fine" under a pool
+	// that does not hold the chain's root
+	for _, pool := range []struct {
+		name  string
+		roles []string
+		isNil bool
+	}{{"A", []string{"root"}, false}, {"nil", nil, true}, {"empty", []string{}, false}} {
+		pool := pool
+		add("chain:BBB(leaf-sgx-extension-critical)/pool:"+pool.name, false, false, func(rng *rand.Rand, s *world.Spec) {
+			sgx := *s.Cert("leafB").Sgx
+			sgx.Critical = true
+			s.Cert("leafB").Sgx = &sgx
+			s.Chain = chainOf("leafB", "interB", "rootB")
+			s.Quote.QeSignKey = s.Cert("leafB").Key
+			s.Pool, s.PoolNil = pool.roles, pool.isNil
+		})
+	}
 	// ---- role confusion
 	add("role:tcb-signer-as-leaf", false, false, func(rng *rand.Rand, s *world.Spec) { s.Chain = chainOf("signer", "inter", "root") })
 	add("role:tcb-signer-named-cert-with-sgx-ext-as-leaf", false, false, func(rng *rand.Rand, s *world.Spec) {
@@ -515,6 +533,8 @@ func rotBlob(w *world.World, items []string) []byte {
 			b = append(b, pem.EncodeToMemory(&pem.Block{Type: "PUBLIC KEY", Bytes: []byte{1, 2, 3}})...)
 		case "@bad-cert-block":
 			b = append(b, pem.EncodeToMemory(&pem.Block{Type: "CERTIFICATE", Bytes: []byte{0x30, 0x03, 0x02, 0x01, 0x01}})...)
+		case "@no-final-newline":
+			b = bytes.TrimRight(b, "\n")
 		default:
 			b = append(b, pem.EncodeToMemory(&pem.Block{Type: "CERTIFICATE", Bytes: w.Certs[it].DER})...)
 		}
@@ -556,6 +576,12 @@ func c02RootOfTrust(r *hx.Run, notes *vNotes) {
 		{name: "inline-empty-string", inline: [][]string{{"@empty"}}},
 		{name: "inline-text", inline: [][]string{{"@text"}}},
 		{name: "directory-as-path", files: [][]string{{"@dir"}}},
+		// every bundle is parsed on its own: what one bundle ends with is no business of the next
+		{name: "inline-A-without-final-newline-then-B", inline: [][]string{{"root", "@no-final-newline"}, {"rootB"}}},
+		{name: "inline-A-B-C-first-two-without-final-newline", inline: [][]string{{"root", "@no-final-newline"}, {"rootB", "@no-final-newline"}, {"rootC"}}},
+		{name: "file-A-inline-B-without-final-newline-then-C", files: [][]string{{"root"}}, inline: [][]string{{"rootB", "@no-final-newline"}, {"rootC"}}},
+		{name: "files-A-without-final-newline-then-B", files: [][]string{{"root", "@no-final-newline"}, {"rootB"}}},
+		{name: "inline-A-then-text", inline: [][]string{{"root", "@no-final-newline"}, {"@text"}}},
 	}
 	reps := 1
 	if r.Tier == "thorough" {
